@@ -38,7 +38,7 @@ def _iterate(v, env):
 def _args(args, env):
     out_ = []
     for a in args:
-        if isinstance(a, ast.Starred): out_.extend(list(evaluate(a.value, env)))
+        if isinstance(a, ast.Starred): out_.extend(_iterate(evaluate(a.value, env), env))
         else: out_.append(evaluate(a, env))
     return out_
 def evaluate(e, env):
@@ -79,8 +79,9 @@ def evaluate(e, env):
             env2 = dict(env); env2["__depth__"] = env.get("__depth__", 0) + 1; env2[h_.args.args[0].arg] = base       # a property of the sample's class: its getter is interpreted
             for k_ in [k_ for k_ in env2 if isinstance(k_, str) and k_.startswith(h_.args.args[0].arg + ".")]: del env2[k_]
             return run_block(h_.body, env2)
-        if isinstance(base, dict) and base.get(".__complete__") and e.attr.startswith("_") and not e.attr.startswith("__") and e.attr not in (env.get("__functions__") or {}):
+        if isinstance(base, dict) and (base.get(".__complete__") == "all" or (base.get(".__complete__") and e.attr.startswith("_") and not e.attr.startswith("__") and e.attr not in (env.get("__functions__") or {}))):
             raise Raised("AttributeError")           # the sample was built by interpreting its constructor: a private field the constructor does not set does not exist
+        if isinstance(base, PyFn) and base.fn is str and e.attr == "maketrans": return PyFn(str.maketrans)
         if isinstance(base, str) and e.attr in ("format", "join", "startswith", "endswith", "lower", "upper", "strip", "replace", "split"): return PyFn(getattr(base, e.attr))
         if isinstance(base, Trusted):
             if e.attr not in base.names: raise Unsupported("%s.%s is outside the trusted part of the standard library" % (getattr(base.obj, "__name__", "?"), e.attr))
@@ -212,7 +213,7 @@ def evaluate(e, env):
     if isinstance(e, ast.JoinedStr):
         return "".join(text_of(evaluate(v.value, env), env) if isinstance(v, ast.FormattedValue) else v.value for v in e.values)
     if isinstance(e, ast.Call):
-        if isinstance(e.func, ast.Attribute) and e.func.attr in ("replace", "strip", "lstrip", "rstrip", "removeprefix", "removesuffix", "startswith", "endswith", "lower", "upper", "casefold", "join", "split", "rsplit", "partition", "rpartition", "format"):
+        if isinstance(e.func, ast.Attribute) and e.func.attr in ("replace", "strip", "lstrip", "rstrip", "removeprefix", "removesuffix", "startswith", "endswith", "lower", "upper", "casefold", "join", "split", "rsplit", "partition", "rpartition", "format", "translate", "count", "find", "rfind", "index", "isdigit", "isalpha", "isalnum", "isidentifier", "isupper", "islower", "isspace", "title", "capitalize", "zfill", "splitlines", "expandtabs", "ljust", "rjust", "center", "swapcase"):
             recv = evaluate(e.func.value, env)
             if isinstance(recv, str): return getattr(recv, e.func.attr)(*_args(e.args, env))      # Python's own str semantics (trusted base)
         if isinstance(e.func, ast.Attribute) and e.func.attr in _PATTERN_METHODS + _MATCH_METHODS:
@@ -335,6 +336,12 @@ def evaluate(e, env):
             if isinstance(e.func, ast.Name) and e.func.id in ("str", "repr") and len(e.args) == 1 and not e.keywords:
                 v_ = evaluate(e.args[0], env)
                 if isinstance(v_, (Inst, list)): return text_of(v_, env)
+            if isinstance(e.func, ast.Attribute) and isinstance(e.func.value, ast.Name) and (e.func.value.id in cds and e.func.value.id not in env or isinstance(env.get(e.func.value.id), ClassRef) and env[e.func.value.id].name in cds):
+                # a method called on the class itself: classmethod / staticmethod (alternative constructors)
+                cn_ = e.func.value.id if e.func.value.id in cds and e.func.value.id not in env else env[e.func.value.id].name
+                c_, f_ = find_method(cds, cn_, e.func.attr)
+                if f_ is not None and any(isinstance(d_, ast.Name) and d_.id in ("classmethod", "staticmethod") for d_ in f_.decorator_list):
+                    return call_method_of(None, cn_, f_, _args(e.args, env), {k.arg: evaluate(k.value, env) for k in e.keywords if k.arg}, env)
             if isinstance(e.func, ast.Attribute):
                 # super().method(...)
                 if isinstance(e.func.value, ast.Call) and isinstance(e.func.value.func, ast.Name) and e.func.value.func.id == "super" and env.get("__class__") in cds:
@@ -398,6 +405,8 @@ def evaluate(e, env):
                 if isinstance(a, ast.Starred): args_.extend(list(evaluate(a.value, env)))
                 else: args_.append(evaluate(a, env))
             return fv.fn(*args_, **kw_)
+        if isinstance(fv, ClassRef) and fv.name in (env.get("__classdefs__") or {}):
+            return instantiate(fv.name, _args(e.args, env), {k.arg: evaluate(k.value, env) for k in e.keywords if k.arg}, env)
         if isinstance(fv, Closure) and not e.keywords: return fv(*_args(e.args, env))
         if isinstance(fv, DefClosure): return fv(*_args(e.args, env), **{k.arg: evaluate(k.value, env) for k in e.keywords if k.arg})
     raise Unsupported("expression outside the supported subset : " + ast.unparse(e)[:80])
@@ -709,7 +718,7 @@ def run_block(stmts, env, max_steps=2000):
             if isinstance(s, ast.Expr) and isinstance(s.value, ast.Yield) and "__yield__" in env:
                 env["__yield__"].append(evaluate(s.value.value, env) if s.value.value is not None else None); continue
             if isinstance(s, ast.Expr) and isinstance(s.value, ast.YieldFrom) and "__yield__" in env:
-                env["__yield__"].extend(list(evaluate(s.value.value, env))); continue
+                env["__yield__"].extend(_iterate(evaluate(s.value.value, env), env)); continue
             if isinstance(s, ast.Break): raise _Break()
             if isinstance(s, ast.Continue): raise _Continue()
             raise Unsupported("statement " + type(s).__name__)
